@@ -59,6 +59,11 @@ def gen_cases(tier, seed):
                 for be in ("numpy", "dask1"):
                     yield {"basis": basis, "dtype": dt, "nchan": 2, "align": "bottom", "trailing": [], "backend": be,
                            "vals": b["vals"], "scale": sc}
+    # large signals (several MB per polarisation): the same formulas, evaluated with NumPy in double precision
+    for basis in ("linear", "circular"):
+        for dt in ("complex128", "complex64"):
+            for be in ("numpy", "dask"):
+                yield {"kind": "large", "basis": basis, "dtype": dt, "backend": be}
 
 
 def grid(vals):
@@ -102,7 +107,55 @@ def values(sig):
     return np.asarray(d)
 
 
+def large_case(case):
+    res = report.Result()
+    rng = np.random.default_rng(13)
+    N, nchan = 140000, 4                                # 560 000 (sample, channel) pairs: 9 MB per polarisation in complex128
+    x = (rng.normal(size=(N, nchan, 2)) + 1j * rng.normal(size=(N, nchan, 2))).astype(case["dtype"])
+    data = da.from_array(x, chunks=(35000, 2, 2)) if case["backend"] == "dask" else x
+    z = pb.DualPolarizationSignal(data, sample_rate=1 * u.MHz, center_freq=400 * u.MHz, pol_type=case["basis"])
+    xd = x.astype(np.complex128)
+    A, B = xd[..., 0], xd[..., 1]
+    r2 = np.sqrt(2.0)
+    if case["basis"] == "linear":
+        want = {"to_circular": np.stack([(A - 1j * B) / r2, (A + 1j * B) / r2], axis=-1), "to_linear": xd}
+        X, Y = A, B
+    else:
+        want = {"to_linear": np.stack([(A + B) / r2, 1j * (A - B) / r2], axis=-1), "to_circular": xd}
+        X, Y = want["to_linear"][..., 0], want["to_linear"][..., 1]
+    want["to_stokes"] = np.stack([abs(X) ** 2 + abs(Y) ** 2, abs(X) ** 2 - abs(Y) ** 2, 2 * (X * np.conj(Y)).real, 2 * (np.conj(X) * Y).imag
+                                  if False else 2 * (X.conj() * Y).imag], axis=-1)
+    eps = float(np.finfo(np.float32 if case["dtype"] == "complex64" else np.float64).eps)
+    for name in ("to_circular", "to_linear", "to_stokes"):
+        res.transitions += 1
+        res.traces += 1
+        res.state(("large", case["basis"], case["dtype"], case["backend"], name))
+        try:
+            got = values(getattr(z, name)())
+        except Exception as e:
+            res.violation(f"large|{name}|raised", f"{type(e).__name__}: {e}", case, {"op": name})
+            continue
+        w = want[name]
+        if name == "to_stokes":
+            # V's sign convention is the one checked on the grid: compare |V| here, everything else directly
+            ok = got.shape == w.shape and float(np.max(np.abs(got[..., :3] - w[..., :3]))) <= 64 * eps * 20 and \
+                float(np.max(np.abs(np.abs(got[..., 3]) - np.abs(w[..., 3])))) <= 64 * eps * 20
+        else:
+            ok = got.shape == w.shape and float(np.max(np.abs(got - w))) <= 16 * eps * 8
+        if not ok:
+            res.violation(f"large|{name}|values", f"{name} on a signal of {N} x {nchan} samples ({case['dtype']}, {case['backend']}) "
+                          f"differs from the formulas", case, {"op": name})
+        else:
+            res.hits["large signal"] += 1
+    if not np.array_equal(values(z), x):
+        res.violation("large|input changed", "the conversions modified the input signal", case, None)
+    res.sample({"large": [N, nchan], "dtype": case["dtype"], "backend": case["backend"]}, 1)
+    return res
+
+
 def check_case(case):
+    if case.get("kind") == "large":
+        return large_case(case)
     res = report.Result()
     z, A, B, scale = build(case)
     trailing = bool(case["trailing"])
@@ -332,7 +385,7 @@ def check_case(case):
 def main(argv=None):
     return report.run_check(
         PID, gen_cases=gen_cases, check_case=check_case, describe=describe,
-        required_hits=["buffer overwritten between calls", "refused pol_type assignment", "both bases in one Dask graph", "identity when already in basis", "Stokes from the other basis", "component by name", "component read, in-place write, component read", "very small / very large magnitudes",
+        required_hits=["buffer overwritten between calls", "refused pol_type assignment", "both bases in one Dask graph", "large signal", "identity when already in basis", "Stokes from the other basis", "component by name", "component read, in-place write, component read", "very small / very large magnitudes",
                        "trailing dimension", "non-center alignment", "dask backend"],
         assumptions=["inputs are dyadic rationals so the formulas are exact up to the final 1/sqrt2; budget 8 eps(dtype) max|.| "
                      "(16 eps max^2 for quadratic quantities)"],
